@@ -179,6 +179,8 @@ func runC04(c *Ctx) {
 		c.verdict(okArg, c.nm(fn)+" | the callback receives the peer's own quit channel", c.P.Pos(fn.Pos()), "peerQuits[sm.sp.Addr()] tested and passed on", "the per-peer quit channel tested before the callback is not the one handed to it")
 	})
 
+	c.rule("C04.O5", "after a reorganisation the filter headers still match the block headers: "+filterRollbackFirstDoc, func() { c.filterRollbackFirst() })
+
 	c.rule("C04.O3", "the peer can locate the fork point: every getheaders request that starts a sync or answers a block announcement (all PushGetHeadersMsg sites of the block manager except the in-batch continuation in handleHeadersMsg, whose single hash the peer itself just supplied) carries a locator that includes the stored chain's LatestBlockLocator, so a peer whose best chain no longer contains our tip still finds the common ancestor", func() {
 		push := c.method(pPeer, "Peer", "PushGetHeadersMsg")
 		loc := c.method("headerfs", "BlockHeaderStore", "LatestBlockLocator")
